@@ -193,6 +193,7 @@ func cmdCheck(args []string) int {
 	replayed := 0
 	reported := map[string]bool{}
 	invBroken := map[string]bool{}
+	reachOK := map[string]bool{}
 	for _, r := range all {
 		for _, f := range r.Funcs {
 			if o, ok := funcs[f.Name]; ok {
@@ -204,13 +205,18 @@ func cmdCheck(args []string) int {
 			solverSecs += q.Secs
 			if q.Kind == "reach" {
 				reachQ++
+				rk := r.Job + "[" + paramStr(r.Params) + "]: reach \"" + q.Label + "\""
 				if q.Status == "sat" {
 					reachSat++
+					reachOK[rk] = true
 					if len(samples) < 6 {
 						samples = append(samples, map[string]interface{}{"job": r.Job, "params": r.Params, "reach": q.Label, "witness": q.Model})
 					}
-				} else {
-					problems = append(problems, fmt.Sprintf("%s[%s]: reach %q is %s (vacuous harness)", r.Job, paramStr(r.Params), q.Label, q.Status))
+				} else if _, seen := reachOK[rk]; !seen {
+					reachOK[rk] = false
+				}
+				if q.Status != "sat" && q.Status != "unsat" {
+					problems = append(problems, fmt.Sprintf("%s is %s", rk, q.Status))
 				}
 				continue
 			}
@@ -273,6 +279,15 @@ func cmdCheck(args []string) int {
 			}
 		}
 	}
+	reachLabels, reachWitnessed := 0, 0
+	for _, k := range keys2(reachOK) {
+		reachLabels++
+		if reachOK[k] {
+			reachWitnessed++
+		} else {
+			problems = append(problems, k+" is never satisfiable (vacuous harness)")
+		}
+	}
 	var fl []FuncInfo
 	for _, f := range funcs {
 		fl = append(fl, f)
@@ -325,8 +340,8 @@ func cmdCheck(args []string) int {
 	os.MkdirAll(filepath.Join(verifDir, "evidence"), 0755)
 	eb, _ := json.MarshalIndent(ev, "", " ")
 	os.WriteFile(filepath.Join(verifDir, "evidence", prop+".json"), eb, 0644)
-	fmt.Printf("%s tier=%s instances=%d obligations=%d discharged=%d reach=%d/%d violations=%d problems=%d solver=%.1fs wall=%.1fs\n",
-		prop, *tier, len(all), obligations, discharged, reachSat, reachQ, violations, len(problems), solverSecs, wall)
+	fmt.Printf("%s tier=%s instances=%d obligations=%d discharged=%d reach-labels=%d/%d violations=%d problems=%d solver=%.1fs wall=%.1fs\n",
+		prop, *tier, len(all), obligations, discharged, reachWitnessed, reachLabels, violations, len(problems), solverSecs, wall)
 	if violations > 0 {
 		return 1
 	}
@@ -368,6 +383,15 @@ func maxInt(a, b int) int {
 		return a
 	}
 	return b
+}
+
+func keys2(m map[string]bool) []string {
+	out := []string{}
+	for k := range m {
+		out = append(out, k)
+	}
+	sort.Strings(out)
+	return out
 }
 
 func keys(m map[string]bool) []string {
